@@ -55,6 +55,8 @@ type ampRouter struct {
 	start                time.Time
 	nUnvalidated         int  // server datagrams emitted while unvalidated
 	atLimit              bool // at some point sent >= 3*delivered while unvalidated
+	closed               bool // the server emitted a CONNECTION_CLOSE in an Initial packet: it closed while unvalidated,
+	// its connection is gone (only closedLocalConn answers), so nothing can validate the address any more
 }
 
 type ampViolation struct {
@@ -81,11 +83,11 @@ func (r *ampRouter) SendPacket(p simnet.Packet) error {
 		}
 		r.delivered += int64(len(p.Data))
 		for _, t := range types {
-			if t == protocol.PacketTypeHandshake {
+			if t == protocol.PacketTypeHandshake && !r.closed {
 				r.validated = true
 			}
 		}
-		if tokLen > 0 {
+		if tokLen > 0 && !r.closed {
 			r.validated = true
 		}
 		r.trace = append(r.trace, fmt.Sprintf("%v C>S#%d %dB %s (delivered=%d validated=%v)", now, idx, len(p.Data), desc, r.delivered, r.validated))
@@ -100,6 +102,9 @@ func (r *ampRouter) SendPacket(p simnet.Packet) error {
 		desc := ampTypes(types, short)
 		if isClose {
 			desc += " CONNECTION_CLOSE"
+			if !r.validated {
+				r.closed = true
+			}
 		}
 		r.trace = append(r.trace, fmt.Sprintf("%v S>C#%d %dB %s (sent=%d)", now, idx, n, desc, r.sent))
 		if !r.validated {
@@ -226,7 +231,11 @@ func ampConnScenario(w *bufio.Writer, r *u.Rng, idx, kind int, dist map[string]i
 		router.dropToClient = func(i int) bool { return lossRng.Intn(100) < lossPct }
 	case ampServerAppCloses, ampListenerCloses:
 		// keep the server unvalidated while it closes: the client's Handshake packets are lost
+		letThroughAfterClose := r.Bool()
 		router.dropToServer = func(i int, types []protocol.PacketType) bool {
+			if router.closed && letThroughAfterClose {
+				return false // what arrives now only meets closedLocalConn (retransmits the close for packets 1, 2, 4, 8, ...)
+			}
 			for _, t := range types {
 				if t == protocol.PacketTypeHandshake {
 					return true
